@@ -56,16 +56,26 @@ impl Default for SeamState {
     }
 }
 
-#[cfg(feature = "shuttle-mode")]
-shuttle::thread_local! {
-    pub static SEAM: RefCell<SeamState> = RefCell::new(SeamState::default());
-}
-#[cfg(not(feature = "shuttle-mode"))]
 thread_local! {
     pub static SEAM: RefCell<SeamState> = RefCell::new(SeamState::default());
+    static IN_SHUTTLE: std::cell::Cell<bool> = const { std::cell::Cell::new(false) };
+}
+#[cfg(feature = "shuttle-mode")]
+shuttle::thread_local! {
+    static SEAM_SH: RefCell<SeamState> = RefCell::new(SeamState::default());
+}
+
+/// all shuttle tasks of an execution share one OS thread: inside an execution the per-task
+/// (shuttle) thread-local is used, outside the per-OS-thread one
+pub fn set_in_shuttle(b: bool) {
+    IN_SHUTTLE.with(|c| c.set(b));
 }
 
 pub fn with_seam<R>(f: impl FnOnce(&mut SeamState) -> R) -> R {
+    #[cfg(feature = "shuttle-mode")]
+    if IN_SHUTTLE.with(|c| c.get()) {
+        return SEAM_SH.with(|c| f(&mut c.borrow_mut()));
+    }
     SEAM.with(|c| f(&mut c.borrow_mut()))
 }
 
